@@ -41,3 +41,13 @@ m = {
 }
 json.dump(m, open(os.path.join(VERIF, "MANIFEST.json"), "w"), indent=1)
 print("wrote MANIFEST.json with", len(checks), "checks")
+
+# plain-text rendering of known_findings.json (the JSON file is what bin/vcheck reads; never written at run time)
+_kf = json.load(open(os.path.join(os.path.dirname(os.path.dirname(os.path.abspath(__file__))), "known_findings.json")))
+with open(os.path.join(os.path.dirname(os.path.dirname(os.path.abspath(__file__))), "known_findings.txt"), "w") as _f:
+    _f.write("# generated from known_findings.json by checks/gen_manifest.py\n")
+    for _k in _kf:
+        if _k.get("state") == "fixed":
+            _f.write("fixed: property=%s %s %s [%s/%s]\n" % (_k["property"], _k["commit"], _k["what"], _k["signature"].get("harness"), _k["signature"].get("assert")))
+        else:
+            _f.write("known: property=%s %s [%s/%s]\n" % (_k["property"], _k["what"], _k["signature"].get("harness"), _k["signature"].get("assert")))
